@@ -110,8 +110,6 @@ class MultiMachine(Machine):
                 nm = rng.choice(allnames)
                 v = self._val(rng, members, nm)
                 lvl = rng.choice(["multi", "member"])
-                if share and members[i]["type"] in ("xy", "indexed") and (idx // 16) % 3 != 0:
-                    lvl = "multi"  # avoid filter for known finding F-C11-1 (member constraints are dropped once a source is shared)
                 ops.append(["constraint", {"at": lvl, "fit": i, "par": nm, "value": v if v != 0 else 0.5, "unc": rng.choice([0.1, 0.5, 1.0]), "rel": False}])
             elif r < 0.84:
                 ops.append(["do_fit"])
